@@ -206,7 +206,7 @@ func runCheck(prop, tier, repo, verif string, verbose, noReplay bool, evOut stri
 			}
 		}
 		tried := false
-		for mask := 1; mask < (1<<len(alts)) && len(alts) <= 4; mask++ {
+		for mask := 1; mask < (1<<len(alts)) && len(alts) <= 4 && failing <= 40; mask++ {
 			P.variant = map[string]string{}
 			var chosen []string
 			for i, a := range alts {
@@ -241,6 +241,7 @@ func runCheck(prop, tier, repo, verif string, verbose, noReplay bool, evOut stri
 	var samples []any
 	exit := 0
 	printedKnown := map[string]bool{}
+	replays := 0
 
 	// vacuity: floors
 	for _, vc := range vcs {
@@ -292,7 +293,11 @@ func runCheck(prop, tier, repo, verif string, verbose, noReplay bool, evOut stri
 			"solver": o.Solver, "solver_output": firstLines(o.Output, 60), "function": o.Func, "property": prop}
 		suffix := " no-failing-input-found"
 		vc := vcOf[o]
-		if vc != nil && !noReplay && vc.fn != nil {
+		replays++
+		if vc != nil && !noReplay && vc.fn != nil && replays > 8 {
+			info["replay"] = "not attempted: the run already replayed 8 failed obligations"
+		}
+		if vc != nil && !noReplay && vc.fn != nil && replays <= 8 {
 			inputs := map[string]any{}
 			if len(o.Model) > 0 {
 				inputs = vc.modelInputs(o)
